@@ -206,7 +206,7 @@ impl Types {
                 }
             }
             MemberKind::Uint(n) => {
-                let value = permissive::deserialize::<U256, _>(value)?;
+                let value = serialization::permissive::deserialize(value)?;
                 ensure!(
                     value.leading_zeros() + n >= 256,
                     "value {value:#x} overflows uint{n}",
